@@ -227,6 +227,8 @@ def rule_pooling(ctx: Ctx) -> None:
 
 
 def run(ctx: Ctx) -> None:
+    from rules import generic as _G
+    ctx.run(_G.rule_arity, ("perception_eval.manager",), "R-ARITY", 20)
     ctx.run(rule_ownership)
     ctx.run(rule_history)
     ctx.run(rule_pooling)
